@@ -386,6 +386,47 @@ def PObj.Inv (o : PObj) : Prop :=
   o.counts = psyCounts o.pub.minT o.pub.maxT o.pub.hours ∧
   (o.meshCache = none ∨ o.meshCache = some (facesOfCounts o.nT o.counts))
 
+/-! ## Hours per value of a psychrometric chart (round 6)
+
+`PsychrometricChart.__init__` accepts each of temperature and relative humidity either as ONE number or
+as a data collection.  `_check_input` is run on the temperature first and on the humidity second;
+`_check_datacoll` (reached only for a collection) stores the hours that one value stands for
+(`_time_multiplier`: 24 for a `DailyCollection`, `1 / timestep` for an hourly one) and the number of
+values (`_calc_length`).  So the LATER collection decides, a number leaves both untouched, and two numbers
+leave the initial 1.  `_compute_hour_values` multiplies every cell count by the multiplier. -/
+
+/-- The form in which one of the two inputs is handed over. -/
+inductive PForm where
+  | const                 -- a number (or text of a number)
+  | hourly (ts : Nat)     -- Hourly(Dis)ContinuousCollection of that timestep
+  | daily                 -- DailyCollection
+deriving Repr, DecidableEq
+
+/-- What `_check_datacoll` stores for a collection; `none`: a number, `_check_datacoll` is not reached. -/
+def PForm.hoursPer? : PForm → Option Rat
+  | .const => none
+  | .hourly ts => some (1 / (ts : Rat))
+  | .daily => some 24
+
+/-- `_time_multiplier` after `__init__` checked the temperature and then the humidity. -/
+def hoursPerValue (t rh : PForm) : Rat :=
+  match rh.hoursPer? with
+  | some h => h
+  | none => match t.hoursPer? with
+    | some h => h
+    | none => 1
+
+/-- `_hour_values` of a chart whose inputs have the forms `t` and `rh`: the non-zero counts in matrix
+    order, each times the hours one value stands for. -/
+def cellHours (t rh : PForm) (counts : List Nat) : List Rat :=
+  (hourValues counts).map fun (c : Nat) => ((c : Nat) : Rat) * hoursPerValue t rh
+
+/-- `_calc_length`: the number of values of the later collection (a number is repeated that often). -/
+def calcLength (t rh : PForm) (nT nRh : Nat) : Nat :=
+  match rh with
+  | .const => (match t with | .const => 1 | _ => nT)
+  | _ => nRh
+
 /-! ## Unit tests -/
 
 private def wp : WPub := { n := 4, isSpeed := true, samples := [(0, 1), (359, 2), (45, 3), (44, 0), (180, 5), (1, 1)] }
@@ -400,5 +441,9 @@ private def wp : WPub := { n := 4, isSpeed := true, samples := [(0, 1), (359, 2)
 #guard pyIndex (-3) 2 = none
 #guard pyIndex 2 2 = none
 #guard cellMeans ⟨0, 10, [(1/2, 3), (1/2, 4), (5, 50), (11, 50)]⟩ [2, 4, 7, 100] = [3, 7]
+#guard cellHours .const (.hourly 4) [0, 3, 0, 8] = [3/4, 2]
+#guard cellHours (.hourly 4) .const [0, 3, 0, 8] = [3/4, 2]
+#guard cellHours .const .daily [2, 0] = [48]
+#guard cellHours .const .const [1] = [1]
 
 end PlotObj
